@@ -392,8 +392,8 @@ def h08_returns_model(S):
 
 HARNESSES = [
     Harness(name="H08-bind", scenario=h08_bind, workers=16, budget_s=900,
-            params={"quick": {"n_max": 2}, "thorough": {"n_max": 3}},
-            bounds={"signature": "1..2 (quick) / 1..3 (thorough) parameters, each positional-only / positional-or-keyword / *args / keyword-only / **kwargs, "
+            params={"quick": {"n_max": 3}, "thorough": {"n_max": 3}},
+            bounds={"signature": "1..3 parameters, each positional-only / positional-or-keyword / *args / keyword-only / **kwargs, "
                                  "default none / int / None, dependency or not; Python's own validity rules as the precondition",
                     "payload": "empty string, or a dict with each named parameter present/absent and one extra key present/absent",
                     "converters": "BasicConverter, PydanticConverter, DefaultConverter"},
